@@ -20,7 +20,14 @@ RULE = ("(a) every recipient string over {u,a,A,@,%%,.} up to length %s under th
         "key and envnoathost each written in either case, probed with the same byte, the other case, both neighbouring bytes and the byte differing in bit 5, "
         "and the same bytes through constmap/hash/case_diffb directly; (g) alphabet legs (seeded, own random stream): nconfigs/3 control directories and nscen/8 "
         "real-daemon scenarios whose labels, users and tags are random strings over the whole alphabet (ends favoured, some digits - [ ` {), every occurrence "
-        "re-cased independently, recipients with near misses (letter -> next/previous byte or @ [ ` {, one label more/less), plus constmap tables over the whole alphabet")
+        "re-cased independently, recipients with near misses (letter -> next/previous byte or @ [ ` {, one label more/less), plus constmap tables over the whole alphabet; "
+        "(h) HUP-timing leg (seeded, own stream): nscen/4 real-daemon scenarios in which the control files are edited again AFTER a SIGHUP was served and before the next "
+        "message (the HUP-time files must be in force), edited before any HUP, re-HUPed without change, and in which messages with an empty or unknown-type record are "
+        "injected (todo_do must leave them in todo/ and hand nothing on); every S scenario is replayed event by event (edit / hup / loop top / msg) through the monitor "
+        "Nq.Rewrite.accept|acceptAll and judged by Nq.Route.specJudge|specStep|specTrace - the two sides of theorem C10_trace - with info, local and remote compared with "
+        "specTodo; (i) delivery leg (seeded, own stream): nscen/16 messages through the real daemon with both spawners announcing concurrency 10 - the harness plays qmail-clean, "
+        "qmail-lspawn and qmail-rspawn - and every delivery command written by del_start/comm_write/comm_do (file name, sender after VERP expansion, recipient) is compared "
+        "per channel and in order with the documented routing of the T records and the documented VERP rule")
 
 FIXED_G = "G 610a 752e610a 610a412e750a 610a752e610a750a 7540753a740a753a760a2e753a770a2e612e753a0a7540752e753a0a"
 ALPHA = b"ua@%.AbB:"
@@ -84,7 +91,7 @@ def mutate(dis, seed):
                 b = unhx(inp)
                 cases += ["V %s %s %s %s" % (hx(x), f["recip"], f.get("delnum", "1"), f.get("id", "1"))
                           for x in [b] + [mut_bytes(rnd, b, b"a@-[]") for _ in range(200)]]
-            elif kind == "S":
+            elif kind in ("S", "D"):
                 cases.append(inp.replace(",", " "))
             elif kind in ("X", "B"):
                 b = unhx(inp)
@@ -103,13 +110,14 @@ run_standard("C10", "Nq.Props.C10", "drv_c10", "harness/c10_route.c", "qmail-sen
              ["control.o", "constmap.o", "auto_qmail.o"],
              "6 1500 320", "8 100000 8000",
              {"quick": RULE % (6, 1500, 320), "thorough": RULE % (8, 100000, 8000)},
-             "Nq.Rewrite (cmInit/CM.lookup, getcontrols/reget, rewriteWith, senderadd, todoDo, Daemon.accept) vs control.c, constmap.c, "
-             "qmail-send.c getcontrols/regetcontrols/rewrite/senderadd/comm_write/todo_do/main",
+             "Nq.Rewrite (cmInit/CM.lookup, getcontrols/reget, rewriteWith, senderadd, commWrite, todoDo, accept/acceptAll over edit|hup|top|msg events) vs control.c, "
+             "constmap.c, qmail-send.c getcontrols/regetcontrols/rewrite/senderadd/comm_write/del_start/todo_do/sighup/main loop",
              mutate=mutate,
              assumptions=[
                  "control files and envelope addresses contain no NUL byte (qmail-queue cannot produce one inside an address; the model is exact with NULs, the documented-rule oracle is applied to NUL-free files only)",
-                 "control files in which a key is listed twice are outside the property's domain: they are compared with the model (later entry wins) but not judged by the oracle",
+                 "control files in which a virtualdomains key is listed twice are outside the property's domain: they are compared with the model (later entry wins) but not judged by the routing oracle (repeated keys in locals/percenthack are judged: membership needs no hypothesis)",
                  "I/O errors while reading control files and out-of-memory returns are not modelled",
                  "percent hack repeated: the documents are read as a rule on the (local part, domain) pair; when an extracted fqdn itself contains '@' the string-level reading would differ (counted as R_pct_readings_differ, theorem C10_pct_string)",
-                 "H3: qmail-send's main() runs as a real child process with spawn concurrency 0 (no deliveries); the harness plays qmail-clean; a SIGHUP is sent only while the daemon is blocked in select() (a signal landing between the flag test and select() is the known select race, not exercised)",
+                 "H3: qmail-send's main() runs as a real child process with spawn concurrency 0 (no deliveries; legs e/g/h) or 10 with the harness answering every delivery with success (leg i); the harness plays qmail-clean; a SIGHUP is sent only while the daemon is blocked in select() and the step ends when it is seen blocked in select() again, i.e. the observed events are hup then loop top (a signal landing between the flag test and select() is the known select race: theorem C10_hup_race says what the code does then, not exercised)",
+                 "a message todo_do refuses is recognised by the daemon going back to sleep in select() without having asked qmail-clean to remove todo/<id> (process state and syscall read from /proc)",
                  "LP64: constmap_hash is a 64-bit unsigned long"])
